@@ -123,6 +123,13 @@ def pred_lang(t, var):
             return ALL.concat(_any_of(lits))
         if lits is not None and t.func.attr == 'startswith':
             return _any_of(lits).concat(ALL)
+    if isinstance(t, ast.Compare) and len(t.ops) == 1 and \
+            isinstance(t.ops[0], (ast.Is, ast.IsNot)) and \
+            _is_var(t.left, var) and \
+            isinstance(t.comparators[0], ast.Constant) and \
+            t.comparators[0].value is None:
+        # no byte string is None
+        return Lang.empty() if isinstance(t.ops[0], ast.Is) else ALL
     if isinstance(t, ast.Compare) and len(t.ops) == 1:
         op, l, r = t.ops[0], t.left, t.comparators[0]
         neg = isinstance(op, (ast.NotEq, ast.NotIn))
